@@ -19,6 +19,12 @@ let run_seq () =
        match toks with
        | "NEW" :: [now] ->
          s := empty_store (n_of_hex now); a := a_empty (n_of_hex now); print_endline line
+       | ["OP"; "rawdump"] ->
+         (* not an operation of the model: the model's three partitions as they are (keys in key order) *)
+         let hx (k : bytes) = String.concat "" (List.map (fun b -> Printf.sprintf "%02x" (int_of_n b)) k) in
+         let keys l = String.concat "," (List.map (fun e -> hx (fst e)) l) in
+         let r = Printf.sprintf "raw S[%s] T[%s] C[%s]" (keys !s.s_stream) (keys !s.s_itopic) (keys !s.s_ictx) in
+         print_endline line; print_endline ("= " ^ r); print_endline ("~ " ^ r)
        | "OP" :: rest ->
          let o = parse_op rest in
          let h = hyp_all !a o in
